@@ -42,9 +42,8 @@ type notationClass_ struct {
 
 func (c *notationClass_) Make() col.NotationLike {
 	return &notation_{
-		class_:     c,
-		formatter_: Formatter().Make(),
-		parser_:    Parser().Make(),
+		class_:  c,
+		parser_: Parser().Make(),
 	}
 }
 
@@ -53,9 +52,8 @@ func (c *notationClass_) Make() col.NotationLike {
 // Target
 
 type notation_ struct {
-	class_     col.NotationClassLike
-	formatter_ FormatterLike
-	parser_    ParserLike
+	class_  col.NotationClassLike
+	parser_ ParserLike
 }
 
 // Attributes
@@ -67,7 +65,9 @@ func (v *notation_) GetClass() col.NotationClassLike {
 // Canonical
 
 func (v *notation_) FormatValue(value any) (source string) {
-	source = v.formatter_.FormatValue(value)
+	// A notation is shared by all the collections of a class (for String()) and a
+	// formatter is stateful, so each call must use its own formatter.
+	source = Formatter().Make().FormatValue(value)
 	return source
 }
 
